@@ -98,7 +98,7 @@ def run_rules(ctx, prefixes, keep=None):
         if r['verdict'] != 'VIOLATION' or r['instance'] == 'ENGINE/crash':
             return r['instance'] == 'no-hoisted-guard' or r['instance'] == 'ENGINE/crash'
         callee_fn = r['instance'].split('/')[1].split('<-')[0]
-        return (r['fn'] in analysed) or any(b.endswith('::' + callee_fn) for b in analysed)
+        return any(b.endswith('::' + callee_fn) for b in analysed)       # the property has rule instances about the CALLEE itself
     ctx.results[n0:] = [r for r in ctx.results[n0:] if concerned(r) or (r['verdict'] == 'holds' and ((r['fn'] in analysed) or r['fn'] is None))]
     # de-duplicate (a rule function may be run for several prefixes)
     seen = set()
@@ -150,7 +150,7 @@ PROPS = {
     'C06': dict(fn=mk(['R06.', 'R02.4', 'R02.6', 'R01.6', 'R01.7', 'R12.e', 'R07.5', 'R05.1']), explanation='arc redirection with relaxed cost, relaxed/deleted flags, exactness propagation, complete reset between compilations (field table from the ADT), flag bits and tables, rough-bound pruning direction, exactness withdrawn when squashing'),
     'C07': dict(fn=mk(['R07.', 'R01.7', 'R02.4', 'R02.5', 'R02.6', 'R13.a', 'R13.b', 'R06.3', 'R12.a', 'R05.1']), explanation='restricted never merges, exact never squashes, truncation withdraws exactness and flags dropped nodes, squash order, value and path from one node through the best-edge chain, expanded vector is the squashed one'),
     'C08': dict(fn=mk(['R08.', 'R01.4', 'R15.3', 'R12.e', 'R12.d', 'R06.1', 'R06.2', 'R06.3', 'R02.6', 'R02.4', 'R07.5'], lambda r: r['rule'] != 'R12.e' or 'relax-' in r['instance'] or 'merge' in r['instance']), explanation='sub-problem fields from one exact, marked node; frontier/LEL admission; progress (first layer never squashed; root test for diagrams that keep nodes in the pool); ub term set; local-bound max-update; push unless ub <= best_lb'),
-    'C09': dict(fn=mk(['R09.', 'R18.', 'R03.pop', 'R07.5', 'R07.6', 'R15.5', 'R08.3'], lambda r: 'threshold-order' not in r['instance'] and 'threshold-no-manual' not in r['instance']), explanation='who writes thresholds and when; explored flag; filter below the root only; filter polarity and theta inheritance; closed list of theta writes with their guards; cache entry fields; mark at pop; must_explore before compiling'),
+    'C09': dict(fn=mk(['R09.', 'R18.', 'R03.pop', 'R07.5', 'R07.6', 'R15.5', 'R08.3', 'R08.5'], lambda r: 'threshold-order' not in r['instance'] and 'threshold-no-manual' not in r['instance']), explanation='who writes thresholds and when; explored flag; filter below the root only; filter polarity and theta inheritance; closed list of theta writes with their guards; cache entry fields; mark at pop; must_explore before compiling'),
     'C10': dict(fn=mk(['R10.', 'R07.6', 'R15.5']), explanation='decision tables extracted by path enumeration with literal consistency: partial_cmp loop automaton (9 cases) and value stage (9 cases), cmp polarity, retain closure table, threshold terms, store keys, in-layer filtering protocol'),
     'C11': dict(fn=mk(['R11.']), explanation='SimpleFringe delegation to BinaryHeap with CompareSubProblem(MaxUB); MaxUB lexicographic order and operand order; NoDupFringe: len/is_empty/clear, pop/push pairing (slot recycled, key forgotten, position recorded), swaps update both tables, dedup key derived from state AND depth, merge table of the Occupied arm (9 cases), bubble-up decision on the merged candidate'),
     'C12': dict(fn=mk(['R12.', 'R15.2', 'R11.d', 'R11.e', 'R06.3', 'R08.1']), explanation='provenance (origin terms) of every argument of transition, transition_cost, relax, merge, for_each_in_domain, next_variable; who may call _branch_on; depth counter; merged slice has at least two members'),
